@@ -1372,3 +1372,123 @@ def unpackb3(run):
                 prove('non-bytes-%s-refused' % type(arg).__name__, out[0] == 'exc' and isinstance(out[1], TypeError) and not seen,
                       clause='TypeError for non-bytes input', path=p)
         core.explore(body, on_path)
+
+
+# ---------------------------------------------------------------------------
+# bounded stand-in: the real codec against the reference codec (spec/msgpack_ref.py, written from the specification) on every boundary
+
+CODEC_REPLAY = '''import sys; sys.path.insert(0, %(repo)r); sys.path.insert(0, %(verif)r)
+from supp import umsgpack as u
+from spec.msgpack_ref import ref_pack, ref_unpack, same, RefExt
+v = %(value)s
+try:
+    got = u.packb(v)
+except Exception as e:
+    got = 'raised %%s' %% type(e).__name__
+want = ref_pack(%(refvalue)s)
+print('packb ->', got if isinstance(got, str) else got[:24].hex(), '... len', len(got)); print('spec  ->', want[:24].hex(), '... len', len(want))
+back = None
+try:
+    back = u.unpackb(want)
+except Exception as e:
+    back = 'raised %%s' %% type(e).__name__
+print('unpackb(spec encoding) ->', repr(back)[:80])
+print('REPRODUCED' if got != want or not same(back, ref_unpack(want)[0]) else 'not reproduced')
+'''
+
+
+@harness('C14', 'supp.umsgpack.packb / unpackb [every size and integer boundary against the reference codec]',
+         bounded='integers at every format boundary (+-1) of the 10 integer formats and both range ends; str / bin / ext / array / map with lengths '
+                 '0, 1, 2, 4, 8, 15, 16, 17, 31, 32, 33, 64, 128, 255, 256, 257, 65535, 65536 (ext types -128, -1, 0, 5, 127); nil, booleans, '
+                 'doubles; every non-minimal integer / length form of small values; every proper prefix of the short encodings')
+def codec_boundaries(run):
+    """BOUNDED stand-in that survives restructurings of the codec (bit tricks on lengths leave the symbolic engine): on every boundary value the
+    real packb gives exactly the bytes of the reference encoder, the real unpackb reads them (and every non-minimal form) back to an equal
+    value, and every proper prefix of a short encoding is refused as insufficient data.  Not counted as proved."""
+    import os
+    m = um()
+    from spec.msgpack_ref import ref_pack, ref_unpack, same, RefExt, RefUnsupported
+    verif = os.path.dirname(os.path.dirname(os.path.abspath(__file__)))
+
+    def go(path):
+        vals = [None, True, False, 0.0, -0.0, 1.5, float('inf'), 2.0 ** -1074]
+        edges = [0, 127, 128, 255, 256, 65535, 65536, 2 ** 32 - 1, 2 ** 32, 2 ** 63 - 1, 2 ** 63, 2 ** 64 - 1,
+                 -1, -32, -33, -128, -129, -32768, -32769, -2 ** 31, -2 ** 31 - 1, -2 ** 63]
+        ints = sorted(set(e + d for e in edges for d in (-1, 0, 1) if -2 ** 63 <= e + d < 2 ** 64))
+        lens = [0, 1, 2, 4, 8, 15, 16, 17, 31, 32, 33, 64, 128, 255, 256, 257, 65535, 65536]
+        cases = [('int:%d' % i, i, i) for i in ints]
+        cases += [('%s:%r' % (type(v).__name__, v), v, v) for v in vals]
+        for n in lens:
+            cases.append(('str:len%d' % n, 'x' * n, 'x' * n))
+            cases.append(('bin:len%d' % n, b'y' * n, b'y' * n))
+            for t in (-128, -1, 0, 5, 127):
+                cases.append(('ext:type%d:len%d' % (t, n), ('ext', t, n), None))
+            cases.append(('array:len%d' % n, [1] * n, [1] * n))
+            cases.append(('map:len%d' % n, {i: None for i in range(n)}, {i: None for i in range(n)}))
+        cases.append(('str:non-ascii', 'naïve € \U0001f600', 'naïve € \U0001f600'))
+        cases.append(('nested', {'k': [1, {'z': (2, 3)}, b'b'], 5: None}, {'k': [1, {'z': (2, 3)}, b'b'], 5: None}))
+        for label, v, rv in cases:
+            if isinstance(v, tuple) and v and v[0] == 'ext':
+                _, t, n = v
+                v, rv = m.Ext(t, b'z' * n), RefExt(t, b'z' * n)
+                vtxt, rtxt = 'u.Ext(%d, b"z" * %d)' % (t, n), 'RefExt(%d, b"z" * %d)' % (t, n)
+            else:
+                vtxt = rtxt = repr(v) if len(repr(v)) < 200 else None
+            want = ref_pack(rv)
+            try:
+                got = m.packb(v)
+            except Exception as e:
+                got = 'raised %s' % type(e).__name__
+            ok = got == want
+            if ok:
+                try:
+                    back = m.unpackb(want)
+                    ok = same(back, ref_unpack(want)[0])
+                except Exception as e:
+                    ok, back = False, 'raised %s' % type(e).__name__
+            if not ok and vtxt:
+                core.RUN.concretise = lambda model, ob, vtxt=vtxt, rtxt=rtxt: {'input': vtxt, 'script': CODEC_REPLAY % {
+                    'repo': core.REPO, 'verif': verif, 'value': vtxt, 'refvalue': rtxt}}
+            prove('round-trip-and-spec-bytes:%s' % label, ok,
+                  clause='packb(v) == the specification\'s smallest encoding and unpackb reads it back [%s]' % (
+                      'ok' if ok else '%r... vs %r...' % (got if isinstance(got, str) else got[:12], want[:12])), path=path)
+            core.RUN.concretise = None
+            if len(want) <= 40:
+                refused = all(_refuses(m, want[:k]) for k in range(len(want)))
+                prove('proper-prefixes-refused:%s' % label, refused, clause='every proper prefix of the encoding raises InsufficientDataException', path=path)
+        # out-of-range integers are refused, not wrapped
+        for bad in (2 ** 64, -2 ** 63 - 1, 2 ** 70):
+            try:
+                m.packb(bad)
+                r = 'encoded'
+            except m.UnsupportedTypeException:
+                r = 'refused'
+            except Exception as e:
+                r = type(e).__name__
+            prove('out-of-range-integer-refused:%d' % bad, r == 'refused', clause='[%s]' % r, path=path)
+        # non-minimal forms of small values are accepted
+        nonmin = [(b'\xcc\x05', 5), (b'\xcd\x00\x05', 5), (b'\xce\x00\x00\x00\x05', 5), (b'\xcf' + bytes(7) + b'\x05', 5),
+                  (b'\xd0\x05', 5), (b'\xd1\x00\x05', 5), (b'\xd2\x00\x00\x00\x05', 5), (b'\xd3' + bytes(7) + b'\x05', 5),
+                  (b'\xd0\xff', -1), (b'\xd1\xff\xff', -1), (b'\xd2' + b'\xff' * 4, -1), (b'\xd3' + b'\xff' * 8, -1), (b'\xd0\x7f', 127),
+                  (b'\xd9\x01a', 'a'), (b'\xda\x00\x01a', 'a'), (b'\xdb\x00\x00\x00\x01a', 'a'),
+                  (b'\xc5\x00\x01a', b'a'), (b'\xc6\x00\x00\x00\x01a', b'a'),
+                  (b'\xdc\x00\x01\x01', [1]), (b'\xdd\x00\x00\x00\x01\x01', [1]), (b'\xde\x00\x01\x01\x02', {1: 2}), (b'\xdf\x00\x00\x00\x01\x01\x02', {1: 2}),
+                  (b'\xc7\x01\x05z', 'ext'), (b'\xc8\x00\x01\x05z', 'ext'), (b'\xc9\x00\x00\x00\x01\x05z', 'ext'), (b'\xca\x3f\xc0\x00\x00', 1.5)]
+        for raw, want in nonmin:
+            try:
+                got = m.unpackb(raw)
+                ok = (got == m.Ext(5, b'z')) if want == 'ext' else same(got, want)
+            except Exception as e:
+                got, ok = 'raised %s' % type(e).__name__, False
+            prove('non-minimal-form-accepted:%s' % raw.hex(), ok, clause='a spec-valid non-minimal encoding decodes to its value [%r]' % (got,), path=path)
+    core.explore(lambda: None, lambda p, out: go(p))
+
+
+def _refuses(m, raw):
+    try:
+        m.unpackb(raw)
+        return False
+    except m.InsufficientDataException:
+        return True
+    except Exception:
+        return False
